@@ -62,7 +62,7 @@ func VerifC16Report() {
 		named(fmt.Sprintf("file %d cannot be rewritten", i), e.replaceErr[i][0], e.names[i], "bad metavariable")
 		named(fmt.Sprintf("file %d cannot be printed", i), e.formatErr[i], e.names[i], "invalid AST")
 		named(fmt.Sprintf("file %d cannot be written", i), e.writeErr[i], e.names[i], "no space left on device")
-		if e.parses[i].set && !e.opts.SkipImportProcessing {
+		if e.parses[i].set {
 			named(fmt.Sprintf("file %d: result does not parse", i), frTri{set: true, val: !e.parses[i].val}, e.names[i], "expected declaration")
 		}
 		for _, t := range []frTri{c16FindErr[i], e.readErr[i], e.parseErr[i], e.replaceErr[i][0], e.formatErr[i], e.writeErr[i]} {
